@@ -800,13 +800,13 @@ tail {
             if is_req_of_kind(sent[i], 0x55u8) { lemma_kinds_distinct(sent[i], 0x55u8, 0x56u8); }
             if is_req_of_kind(sent[i], 0x56u8) { lemma_kinds_distinct(sent[i], 0x56u8, 0x55u8); }
         }
-        // ... and a section that is not Skip IS requested (whatever happened to the other section)
-        let att = client.socket.attempts();
-        assert(gather_settings.players != GatherToggle::Skip ==> has_kind(att, 0x55u8));
-        assert(gather_settings.rules != GatherToggle::Skip ==> has_kind(att, 0x56u8));
-        assert(gather_settings.players == GatherToggle::Skip ==> never_sent(sent, 0x55u8));
-        assert(gather_settings.rules == GatherToggle::Skip ==> never_sent(sent, 0x56u8));
     }
+    // PROPERTY ASSERTIONS (C11; plain statements, not proof-script steps): a section that is not Skip IS requested,
+    // whatever happened to the other section, and a section that is Skip never appears on the wire
+    assert(gather_settings.players != GatherToggle::Skip ==> has_kind(client.socket.attempts(), 0x55u8));
+    assert(gather_settings.rules != GatherToggle::Skip ==> has_kind(client.socket.attempts(), 0x56u8));
+    assert(gather_settings.players == GatherToggle::Skip ==> never_sent(client.socket.sent(), 0x55u8));
+    assert(gather_settings.rules == GatherToggle::Skip ==> never_sent(client.socket.sent(), 0x56u8));
 }
 @*/
 //@ body-end
